@@ -41,7 +41,14 @@ def run(b, ps, tier, seed):
         violations.append(C.Violation("model reports run-time errors the implementation does not show: %s" % impl_fine[:3],
                                       {"property": PROP, "kind": "unproven", "no_longer_checks": [{"what": "correspondence run (error class)", "detail": str(impl_fine[:5])}]},
                                       found_input=False))
-    cov = R.coverage(d, {"impl_runs_with_error": errs, "model_runs_with_error": len(model_errs)})
+    pcov, not_typed = P.premise_check(b, d, seed, tier)
+    if not_typed and not violations:
+        violations.append(C.Violation("the premise tc_annotations_typed of the safety theorem fails on an accepted program of the fragment: %s" % [i for i, _ in not_typed[:3]],
+                                      {"property": PROP, "kind": "unproven", "no_longer_checks": [{"what": "premise check (static_typed_b on the annotated program)", "detail": not_typed[0][1][:800]}]},
+                                      found_input=False))
+    extra = {"impl_runs_with_error": errs, "model_runs_with_error": len(model_errs)}
+    extra.update(pcov)
+    cov = R.coverage(d, extra)
     return {"violations": violations, "known": [], "coverage": cov, "assumptions": P.COMMON_ASSUMPTIONS, "trusted_extra": P.COMMON_TRUSTED}
 
 
